@@ -124,7 +124,7 @@ func (s *v10Source) StartRun() error {
 					return
 				}
 			}
-			vhook.PS(904, 2)
+			vhook.PSC(904, []interface{}{abort, s.tick}, []bool{false, false}, false)
 			select {
 			case <-abort:
 				vhook.C(0)
